@@ -106,6 +106,28 @@ void Base64BinaryDatatypeValidator::normalizeContent(XMLCh* const content
     XMLString::removeWS(content, manager);
 }
 
+// ---------------------------------------------------------------------------
+//  Compare methods
+// ---------------------------------------------------------------------------
+int Base64BinaryDatatypeValidator::compare(const XMLCh* const lValue
+                                         , const XMLCh* const rValue
+                                         , MemoryManager* const manager)
+{
+    if (!lValue || !rValue)
+        return XMLString::compareString(lValue, rValue);
+
+    // "AA==" and "A A = =" denote the same octets
+    XMLCh* lNorm = XMLString::replicate(lValue, manager);
+    ArrayJanitor<XMLCh> janL(lNorm, manager);
+    XMLCh* rNorm = XMLString::replicate(rValue, manager);
+    ArrayJanitor<XMLCh> janR(rNorm, manager);
+
+    XMLString::removeWS(lNorm, manager);
+    XMLString::removeWS(rNorm, manager);
+
+    return XMLString::compareString(lNorm, rNorm);
+}
+
 /***
  * Support for Serialization/De-serialization
  ***/
